@@ -77,7 +77,10 @@ GoodPlans == { p \in Plans : /\ (p.kind = "frame" => p.part <= Len(Bases[p.base]
 \* a member write that was cut inside a field or an element, or before its first data element, is not a write request at all (whatever
 \* complete elements precede the cut): the bundle's other member is a read, so NOTHING may change -- however the bundle is answered.
 \* (A cut after a whole element leaves a Write Tag with fewer values than it declares: LogixOps lets that be carried out.)
-NoWriteAtAll(p) == p.kind = "member" /\ (p.op = "cutinside" \/ (p.op = "cutafter" /\ WriteMsg[p.part].n \notin {"msg.d1", "msg.d2"}))
+\* Likewise a write whose request path SIZE is zeroed (the path octets still follow it): a request without a path addresses nothing.
+RawPartName(p) == IF p.kind = "frame" THEN Bases[p.base][p.part].n ELSE IF p.kind = "inner" THEN Inner[p.base][p.part].n ELSE WriteMsg[p.part].n
+NoWriteAtAll(p) == \/ p.kind = "member" /\ (p.op = "cutinside" \/ (p.op = "cutafter" /\ WriteMsg[p.part].n \notin {"msg.d1", "msg.d2"}))
+                   \/ p.op = "zero" /\ RawPartName(p) = "msg.pathsz" /\ (p.kind = "member" \/ p.base = "write")
 \* does the mutated stream still contain the complete, untouched CIP write message of its base frame?
 Contains(big, small) == \E off \in 0 .. (Len(big) - Len(small)) : SubSeq(big, off + 1, off + Len(small)) = small
 WriteIntact(p) == \/ p.base \in {"write", "bundle"} /\ Contains(Octets(p), Bytes(WriteMsg))
